@@ -212,9 +212,12 @@ Definition check_rank (f : func) (m : PositiveMap.t N) : bool :=
                        | Some j => stop j || (rank_of m b <? rank_of m (i_off i))
                        | None => false end) (succs f i))) (f_instrs f).
 
-(* exits that the compiler guards with a check: RETURN*, RETURN_FINALLY, YIELD *)
+(* exits that the compiler guards with a check: RETURN, RETURN_SELF, RETURN_FIRST_ARG, YIELD.
+   RETURN_FINALLY is NOT included: the epilogue of every finally block re-dispatches a pending
+   return with an unguarded RETURN_FINALLY, and a path-insensitive analysis cannot tell that it
+   only runs after a guarded one. *)
 Definition is_exit (i : instr) : bool :=
-  match i_kind i with KReturn | KRetFinally | KYield => true | _ => false end.
+  match i_kind i with KReturn | KYield => true | _ => false end.
 
 (* successors followed when looking for an unchecked exit: the creating call of a generator /
    promise (GENERATOR;RETURN / PROMISE;RETURN prologue) returns at once and is not followed *)
